@@ -661,6 +661,7 @@ func propC07(c *Ctx) {
 	})
 
 	c.Rule("C07.R9", func() { hookEffectsContained(c, "C07.R9") })
+	c.Rule("C07.R10", func() { routedEventsForwarded(c, "C07.R10", "handleBridgeHook") })
 
 	c.Rule("C07.R5", func() {
 		o := c.Ob("C07.R5", "FinalizeTokenDeposit: every '=' path that reaches a return has advanced the L1 sequence (independent of credit/hook outcome)")
@@ -737,7 +738,9 @@ func propC07(c *Ctx) {
 				continue
 			}
 			l2 := p.Find(func(ev *Event) bool { return ev.Kind == EvEnter && isCall(ev, "Keeper).IncreaseNextL2Sequence") })
-			reclaim := p.Find(func(ev *Event) bool { return ev.Kind == EvCall && isCall(ev, "BankKeeper).SendCoinsFromAccountToModule") })
+			reclaim := p.Find(func(ev *Event) bool {
+				return ev.Kind == EvCall && isCall(ev, "BankKeeper).SendCoinsFromAccountToModule")
+			})
 			burn := p.Find(func(ev *Event) bool { return ev.Kind == EvCall && isCall(ev, "BankKeeper).BurnCoins") })
 			_, views, und := emitted(p)
 			if len(und) > 0 {
@@ -855,14 +858,14 @@ func propC09(c *Ctx) {
 	c.Rule("C09.R1", func() {
 		o := c.Ob("C09.R1", "opchild bank mutator sites equal the table")
 		allowed := map[string]int{
-			"(opchild/keeper.MsgServer).safeDepositToken|MintCoins":                         1,
-			"(opchild/keeper.MsgServer).safeDepositToken|SendCoinsFromModuleToAccount":      1,
-			"(opchild/keeper.MsgServer).SpendFeePool|SendCoinsFromModuleToAccount":          1,
+			"(opchild/keeper.MsgServer).safeDepositToken|MintCoins":                           1,
+			"(opchild/keeper.MsgServer).safeDepositToken|SendCoinsFromModuleToAccount":        1,
+			"(opchild/keeper.MsgServer).SpendFeePool|SendCoinsFromModuleToAccount":            1,
 			"(opchild/keeper.MsgServer).InitiateTokenWithdrawal|SendCoinsFromAccountToModule": 1,
-			"(opchild/keeper.MsgServer).InitiateTokenWithdrawal|BurnCoins":                  1,
-			"(opchild/keeper.MsgServer).FinalizeTokenDeposit|SendCoinsFromAccountToModule":  1,
-			"(opchild/keeper.MsgServer).FinalizeTokenDeposit|BurnCoins":                     1,
-			"(opchild/keeper.Keeper).setDenomMetadata|SetDenomMetaData":                     1,
+			"(opchild/keeper.MsgServer).InitiateTokenWithdrawal|BurnCoins":                    1,
+			"(opchild/keeper.MsgServer).FinalizeTokenDeposit|SendCoinsFromAccountToModule":    1,
+			"(opchild/keeper.MsgServer).FinalizeTokenDeposit|BurnCoins":                       1,
+			"(opchild/keeper.Keeper).setDenomMetadata|SetDenomMetaData":                       1,
 		}
 		seen := map[string]int{}
 		for _, s := range eff.Where(func(s *Site) bool {
@@ -896,7 +899,9 @@ func propC09(c *Ctx) {
 		o3 := c.Ob("C09.R1", "SpendFeePool: pays from the fee collector module to the decoded recipient")
 		for _, p := range c.Paths(sp, PO{Params: hParams, NoInline: []string{".Validate"}}) {
 			o3.Paths++
-			for _, i := range p.Find(func(ev *Event) bool { return ev.Kind == EvCall && isCall(ev, "BankKeeper).SendCoinsFromModuleToAccount") }) {
+			for _, i := range p.Find(func(ev *Event) bool {
+				return ev.Kind == EvCall && isCall(ev, "BankKeeper).SendCoinsFromModuleToAccount")
+			}) {
 				o3.Sites++
 				a := p.Events[i].Call.Args
 				if a[2].Key() != `"fee_collector"` || decodedFrom(a[3]) == nil || decodedFrom(a[3]).Key() != "req.Recipient" || a[4].Key() != "req.Amount" {
@@ -916,7 +921,9 @@ func propC09(c *Ctx) {
 		for _, p := range c.Paths(fn, PO{Params: hParams, NoInline: []string{".Validate", "GetBaseDenom"}}) {
 			o.Paths++
 			o.Facts += p.NFacts()
-			send := p.Find(func(ev *Event) bool { return ev.Kind == EvCall && isCall(ev, "BankKeeper).SendCoinsFromAccountToModule") })
+			send := p.Find(func(ev *Event) bool {
+				return ev.Kind == EvCall && isCall(ev, "BankKeeper).SendCoinsFromAccountToModule")
+			})
 			burn := p.Find(func(ev *Event) bool { return ev.Kind == EvCall && isCall(ev, "BankKeeper).BurnCoins") })
 			for _, i := range send {
 				o.Sites++
@@ -985,6 +992,8 @@ func propC09(c *Ctx) {
 			o.Fail(c.W.Pos(fn.Pos()), "no success path", nil)
 		}
 	})
+
+	c.Rule("C09.R6", func() { routedEventsForwarded(c, "C09.R6") })
 
 	c.Rule("C09.R5", func() {
 		hs := c.Handlers("opchild")
@@ -1141,7 +1150,6 @@ func propC09(c *Ctx) {
 	})
 }
 
-
 // hookEffectsContained: inside handleBridgeHook and safeDepositToken no effect
 // may escape the cache context before commit: an effect (event emission, store
 // or keeper write) that happens before commit() must be performed on the
@@ -1208,6 +1216,99 @@ func hookEffectsContained(c *Ctx, rule string) {
 		}
 		if o.Paths == 0 {
 			o.Fail(c.W.Pos(fn.Pos()), "no path", nil)
+		}
+	}
+}
+
+// routedEventsForwarded: the message router runs every handler on a private
+// event manager and hands the events back in the *sdk.Result.  The two places
+// that execute routed messages (ExecuteMessages, handleBridgeHook) must pass
+// those events on whenever the messages' state changes are committed —
+// otherwise a withdrawal executed there burns coins and consumes an L2
+// sequence without the initiate_token_withdrawal event that is its only
+// transport to L1.  Emission must be tied to the commit: on the cache
+// context's manager before the commit, or on the outer manager after it.
+func routedEventsForwarded(c *Ctx, rule string, only ...string) {
+	type tgt struct {
+		typ, name string
+		po        PO
+	}
+	for _, t := range []tgt{
+		{"MsgServer", "ExecuteMessages", PO{Params: hParams, Visits: 3, NoInline: []string{".Validate", "checkAdminPermission"}}},
+		{"Keeper", "handleBridgeHook", PO{Params: []string{"k", "ctx", "data", "hookMaxGas"}, Visits: 3}},
+	} {
+		if len(only) > 0 && !setOf(only...)[t.name] {
+			continue
+		}
+		fn := c.Method(childKeeper, t.typ, t.name)
+		o := c.Ob(rule, t.name+": the events of every routed message are emitted iff its state changes are committed (recorded withdrawals are always announced)")
+		nCommitted := 0
+		for _, p := range c.Paths(fn, t.po) {
+			o.Paths++
+			o.Facts += p.NFacts()
+			if p.Panic {
+				continue
+			}
+			var cache *Term
+			commitIdx := -1
+			var handlers []int
+			for i := range p.Events {
+				ev := &p.Events[i]
+				if ev.Kind != EvCall {
+					continue
+				}
+				if strings.HasSuffix(ev.Call.Name, "(sdk.Context).CacheContext") {
+					cache = ev.Call
+				} else if ev.Call.Name == "dynamic" && cache != nil && strip(ev.Fun).String() == cache.String()+".1" {
+					commitIdx = i
+				} else if ev.Call.Name == "dynamic" && ev.Fun != nil && strings.Contains(ev.Fun.Key(), "MsgServiceRouter).Handler(") {
+					handlers = append(handlers, i)
+				}
+			}
+			if commitIdx < 0 || len(handlers) == 0 {
+				continue
+			}
+			nCommitted++
+			for _, hi := range handlers {
+				h := p.Events[hi].Call
+				o.Sites++
+				forwarded := false
+				for j := hi + 1; j < len(p.Events); j++ {
+					e2 := &p.Events[j]
+					if e2.Kind != EvCall || effectKind(e2) != "event" || len(e2.Call.Args) < 2 {
+						continue
+					}
+					carries := false
+					e2.Call.Args[1].Walk(func(x *Term) bool {
+						if x.Op == "call" && strings.HasSuffix(x.Name, "Result).GetEvents") && len(x.Args) == 1 && x.Args[0].String() == h.String()+".0" {
+							carries = true
+						}
+						return !carries
+					})
+					if !carries {
+						continue
+					}
+					onCache := false
+					e2.Call.Args[0].Walk(func(x *Term) bool {
+						if x.String() == cache.String()+".0" {
+							onCache = true
+						}
+						return !onCache
+					})
+					if (onCache && j < commitIdx) || (!onCache && j > commitIdx) {
+						forwarded = true
+					} else {
+						o.Fail(c.evPos(e2), "events of a routed message are emitted detached from the commit (outer manager before the commit, or cache manager after it)", c.Dump(p, j))
+						forwarded = true
+					}
+				}
+				if !forwarded {
+					o.Fail(c.evPos(&p.Events[hi]), "the routed message's state changes are committed but the events in its result are dropped: a withdrawal executed here is recorded (coins burned, L2 sequence consumed) yet never announced, so it cannot be claimed on L1", c.Dump(p, hi))
+				}
+			}
+		}
+		if nCommitted == 0 {
+			o.Fail(c.W.Pos(fn.Pos()), "no committing path with a routed handler call found (floor 1)", nil)
 		}
 	}
 }
